@@ -178,6 +178,10 @@ KNOWN_SCENARIOS = [
     ("F35-handled-exception-inside-finally-cancels-the-one-in-flight",
      'fn cleanup() { try { nil + 1; } catch e { return "cleaned"; } }\nfn risky() { try { throw "boom"; } finally { print(cleanup()); } return "returned normally"; }\ntry { print(risky()); } catch e { print("caught " + e); }',
      ["cleaned", "caught boom"], "ok"),
+    ("F39-return-break-continue-in-catch-skip-finally",
+     'fn rc() { try { throw 1; } catch e { return "catch"; } finally { print("fin"); } return "after"; }\nprint(rc());\n'
+     'for i in 0..2 { try { throw i; } catch e { if e == 0 { continue; } break; } finally { print("loop fin " + String.from(i)); } }\nprint("end");',
+     ["fin", "catch", "loop fin 0", "loop fin 1", "end"], "ok"),
     ("F26-return-in-finally-after-throw", 'fn g() { try { throw 1; } finally { return 2; } }\nprint(g());\nfn h() { try { print("h"); } finally { print("hf"); } return 3; }\nprint(h());',
      ["2", "h", "hf", "3"], "ok"),
 ]
